@@ -20,6 +20,7 @@ Import ListNotations.
 Require Import CV.CircuitAccess.
 Local Open Scope string_scope.
 Definition circuit_uses : list cuse := [ mkU "translator" UUnknown "TRANSLATOR FAILED" 0 ].
+Definition circuit_methods : list cmethod := [ mkM "TRANSLATOR FAILED" true false 1 [("rows_", 0)] [] ].
 """
 PLACEMENT = ("cellX_", "cellY_", "cellOrientation_")
 FLAGS = ("hasCellSizeUpdate_", "hasNetUpdate_")
@@ -34,6 +35,7 @@ def regenerate_access():
     try:
         uses, nfun, nsrc = circuit_access.translate(common.REPO)
         circuit_access.write_gen(GEN, circuit_access.coq_text(uses, nfun, nsrc))
+        regenerate_access.methods = list(circuit_access.translate.methods)
         return uses, nfun, None
     except circuit_access.TranslateError as e:
         circuit_access.write_gen(GEN, STUB % str(e).replace("*)", "* )")[:1500])
